@@ -25,7 +25,7 @@ Proof.
   induction j as [|j IH]; intros val st Hval Hj Hall.
   - cbn [push_top_bytes N.of_nat]. rewrite N.mul_0_r, N.pow_0_r, N.mul_1_r, N.sub_0_r.
     rewrite (N.div_small val) by assumption. repeat split; try lia; assumption.
-  - cbn [push_top_bytes].
+  - cbn [push_top_bytes]. p2.
     rewrite Nat2N.inj_succ in Hj |- *.
     assert (H8 : 8 <= w) by lia.
     assert (Hsh : (val * 256) mod 2 ^ w = (val mod 2 ^ (w - 8)) * 2 ^ 8).
@@ -111,7 +111,7 @@ Lemma u8_write_msbs_R s b w v n :
   R KU8 s b -> 8 <= w -> n <= w -> v < 2 ^ w ->
   exists s', u8_write_msbs w v n s = Ok s' /\ R KU8 s' (bpush b n ((v mod 2 ^ w) / 2 ^ (w - n))).
 Proof.
-  intros HR H8 Hn Hv. unfold u8_write_msbs.
+  intros HR H8 Hn Hv. unfold u8_write_msbs. p2.
   destruct (N.eqb_spec n 0) as [->|Hn0].
   { exists s. split; [reflexivity|]. rewrite bpush_0. assumption. }
   destruct (N.ltb_spec w n) as [?|_]; [lia|].
@@ -122,7 +122,7 @@ Proof.
   cbn [wordbits] in *. rewrite Hpad. clear Hpad.
   destruct (N.eqb_spec p 0) as [Hp0|Hp0].
   - (* already aligned *)
-    subst p. cbn [bind]. rewrite if_ok.
+    subst p. cbn [bind]. rewrite if_ok. p2.
     eexists. split; [reflexivity|].
     rewrite N.pow_0_r, N.mul_1_r in Hval.
     eapply (u8_aligned_phase w (rst s) (bval b) d n (blen s + n)); try eassumption; try lia;
@@ -172,7 +172,7 @@ Proof.
       assert (Hshift : (d * 2 ^ (w - n) * 2 ^ p) mod 2 ^ w = (d mod 2 ^ k) * 2 ^ (w - k)).
       { rewrite <- N.mul_assoc, <- N.pow_add_r. replace (w - n + p) with (w - k) by lia.
         apply shl_mod_top. lia. }
-      rewrite Hshift. cbn [bind]. rewrite if_ok.
+      rewrite Hshift. cbn [bind]. rewrite if_ok. p2.
       eexists. split; [reflexivity|].
       assert (Hxb : x + d / 2 ^ k < 2 ^ 8).
       { pose proof (split_hi_lo x p) as Hx2. rewrite Hxm, N.add_0_r in Hx2.
@@ -200,7 +200,7 @@ Lemma u8_write_lsbs_R s b w v n :
   R KU8 s b -> 8 <= w -> n <= w -> v < 2 ^ w ->
   exists s', u8_write_lsbs w v n s = Ok s' /\ R KU8 s' (bpush b n v).
 Proof.
-  intros HR H8 Hn Hv. unfold u8_write_lsbs.
+  intros HR H8 Hn Hv. unfold u8_write_lsbs. p2.
   destruct (N.eqb_spec n 0) as [->|Hn0].
   - exists s. split; [reflexivity|]. rewrite bpush_0. assumption.
   - destruct (N.ltb_spec w n) as [?|_]; [lia|].
@@ -234,7 +234,7 @@ Lemma u8_write_R s b w v :
   R KU8 s b -> 8 <= w -> w mod 8 = 0 -> v < 2 ^ w ->
   exists s', u8_write w v s = Ok s' /\ R KU8 s' (bpush b w v).
 Proof.
-  intros HR H8 Hw8 Hv. unfold u8_write.
+  intros HR H8 Hw8 Hv. unfold u8_write. p2.
   destruct (R_pad _ _ _ HR) as (p & Hpad & HL & Hp & Hall & Hval & Hlen).
   cbn [wordbits] in *. rewrite Hpad. clear Hpad.
   assert (Hwd : w = 8 * (w / 8)).
